@@ -60,8 +60,10 @@ func (o Op) token() string {
 		return o.K + ":" + hx(o.A[0])
 	case "pf", "af":
 		return fmt.Sprintf("%s:%s:%d", o.K, hx(o.A[0]), o.N)
-	case "pp", "ap":
+	case "pp", "ap", "ah", "ph":
 		return fmt.Sprintf("%s:%d", o.K, o.N)
+	case "av", "pv":
+		return o.K
 	case "as":
 		return fmt.Sprintf("as:%s:%s:%s:%s:%s:%s", hx(o.A[0]), hx(o.A[1]), hx(o.A[2]), c.B(o.B), hx(o.A[3]), hx(o.A[4]))
 	case "au":
@@ -97,6 +99,24 @@ func (p *fakeProv) GetEncryptedKey() (string, string, bool) {
 type sys struct {
 	P *provisioner.Collection
 	A *administrator.Collection
+	// a page fetched earlier and not yet rendered (what a request holds between GetAdmins /
+	// GetProvisioners returning and the response being serialized)
+	heldA     []*linkedca.Admin
+	heldACur  string
+	heldALim  int
+	heldAOK   bool
+	heldAAsOf []string // ids of the page when it was fetched
+	heldAAll  []string // ids listed when it was fetched
+	heldP     provisioner.List
+	heldPCur  string
+	heldPLim  int
+	heldPOK   bool
+	heldPAsOf []string
+	heldPAll  []string
+	// provisioners updated while a page is held: Update is Remove + Store under a new uid, so an
+	// updated provisioner legitimately moves in the listing order (it may be seen twice or not at
+	// all by a client that is in the middle of paging); the exactly-once predicate is about the others
+	touchedP map[string]bool
 }
 
 func newSys() *sys {
@@ -150,6 +170,9 @@ func (s *sys) exec(o Op) (out string, mutating bool) {
 	case "ps":
 		return errClass(s.P.Store(&fakeProv{id: o.A[0], name: o.A[1], tok: o.A[2], kid: o.A[3], hasKey: o.H})), true
 	case "pu":
+		if s.touchedP != nil {
+			s.touchedP[hx(o.A[0])] = true
+		}
 		return errClass(s.P.Update(&fakeProv{id: o.A[0], name: o.A[1], tok: o.A[2], kid: o.A[3], hasKey: o.H})), true
 	case "pr":
 		return errClass(s.P.Remove(o.A[0])), true
@@ -193,8 +216,128 @@ func (s *sys) exec(o Op) (out string, mutating bool) {
 			return "p:loop", false
 		}
 		return "p:" + joinPages(pages), false
+	case "ah":
+		s.heldA, s.heldACur = s.A.Find("", o.N)
+		s.heldALim, s.heldAOK = o.N, true
+		s.heldAAsOf = nil
+		for _, a := range s.heldA {
+			s.heldAAsOf = append(s.heldAAsOf, hx(a.Id))
+		}
+		all, _ := s.A.Find("", 100)
+		s.heldAAll = nil
+		for _, a := range all {
+			s.heldAAll = append(s.heldAAll, hx(a.Id))
+		}
+		return "h:" + strings.Join(s.heldAAsOf, ",") + "/" + hx(s.heldACur), false
+	case "av":
+		if !s.heldAOK {
+			return "v:-", false
+		}
+		s.heldAOK = false
+		pages := [][]string{renderAdmins(s.heldA)}
+		cur := s.heldACur
+		for i := 0; cur != ""; i++ {
+			if i >= fuel-1 {
+				return "v:loop", false
+			}
+			l, next := s.A.Find(cur, s.heldALim)
+			pages = append(pages, renderAdmins(l))
+			cur = next
+		}
+		return "v:" + joinPages(pages), false
+	case "ph":
+		s.heldP, s.heldPCur = s.P.Find("", o.N)
+		s.heldPLim, s.heldPOK = o.N, true
+		s.touchedP = map[string]bool{}
+		s.heldPAsOf = nil
+		for _, p := range s.heldP {
+			s.heldPAsOf = append(s.heldPAsOf, hx(p.GetID()))
+		}
+		all, _ := s.P.Find("", 100)
+		s.heldPAll = nil
+		for _, p := range all {
+			s.heldPAll = append(s.heldPAll, hx(p.GetID()))
+		}
+		return "h:" + strings.Join(s.heldPAsOf, ",") + "/" + hx(s.heldPCur), false
+	case "pv":
+		if !s.heldPOK {
+			return "v:-", false
+		}
+		s.heldPOK = false
+		pages := [][]string{renderProvs(s.heldP)}
+		cur := s.heldPCur
+		for i := 0; cur != ""; i++ {
+			if i >= fuel-1 {
+				return "v:loop", false
+			}
+			l, next := s.P.Find(cur, s.heldPLim)
+			pages = append(pages, renderProvs(l))
+			cur = next
+		}
+		return "v:" + joinPages(pages), false
 	}
 	return "badop", false
+}
+
+// renderAdmins reads the page the way the response writer does, after whatever happened since
+func renderAdmins(l []*linkedca.Admin) []string {
+	ids := []string{}
+	for _, a := range l {
+		if a == nil {
+			ids = append(ids, "nil")
+		} else {
+			ids = append(ids, hx(a.Id))
+		}
+	}
+	return ids
+}
+
+func renderProvs(l provisioner.List) []string {
+	ids := []string{}
+	for _, p := range l {
+		if p == nil {
+			ids = append(ids, "nil")
+		} else {
+			ids = append(ids, hx(p.GetID()))
+		}
+	}
+	return ids
+}
+
+// heldVerdict: the rendered page is the page that was fetched, and page + continuation hold every
+// element that was listed at fetch time and still is, exactly once
+func heldVerdict(out string, asOf, allThen, allNow []string, touched map[string]bool) string {
+	if out == "v:loop" {
+		return "paging:held-loop"
+	}
+	pages := strings.Split(strings.TrimPrefix(out, "v:"), "|")
+	if pages[0] != strings.Join(asOf, ",") {
+		return "paging:page-mutated"
+	}
+	seen := map[string]int{}
+	for _, pg := range pages {
+		if pg == "" {
+			continue
+		}
+		for _, id := range strings.Split(pg, ",") {
+			seen[id]++
+		}
+	}
+	now := map[string]bool{}
+	for _, id := range allNow {
+		now[id] = true
+	}
+	for id, n := range seen {
+		if n > 1 && !touched[id] {
+			return "paging:duplicate"
+		}
+	}
+	for _, id := range allThen {
+		if now[id] && seen[id] != 1 && !touched[id] {
+			return "paging:missed"
+		}
+	}
+	return ""
 }
 
 func joinPages(pages [][]string) string {
@@ -549,7 +692,44 @@ func (k *Case) runProps() string {
 				renames = len(l) > 0
 			}
 		}
+		dumpBefore := ""
+		switch o.K {
+		case "ps", "pu", "pr", "as", "ar", "au":
+			dumpBefore = s.dump(u)
+		}
 		out, _ := s.exec(o)
+		if dumpBefore != "" && out != "ok" && out != "crash" && s.dump(u) != dumpBefore {
+			return fmt.Sprintf("rejected-changed:%s@%d", o.K, i)
+		}
+		if o.K == "av" && out != "v:-" {
+			all, _ := s.A.Find("", 100)
+			var now []string
+			for _, a := range all {
+				now = append(now, hx(a.Id))
+			}
+			// the empty id renders as "" and cannot be told from an empty page: skip those
+			skip := false
+			for _, id := range append(append([]string{}, s.heldAAll...), now...) {
+				if id == "" {
+					skip = true
+				}
+			}
+			if !skip {
+				if bad := heldVerdict(out, s.heldAAsOf, s.heldAAll, now, nil); bad != "" {
+					return bad + ":admins"
+				}
+			}
+		}
+		if o.K == "pv" && out != "v:-" {
+			all, _ := s.P.Find("", 100)
+			var now []string
+			for _, p := range all {
+				now = append(now, hx(p.GetID()))
+			}
+			if bad := heldVerdict(out, s.heldPAsOf, s.heldPAll, now, s.touchedP); bad != "" {
+				return bad + ":provisioners"
+			}
+		}
 		if out == "crash" {
 			if o.K == "au" && !known {
 				return "crash:update-unknown-id"
@@ -637,6 +817,15 @@ func gen(r *c.Rng, s *sys) Op {
 		return al[r.Intn(len(al))].Id
 	}
 	x := r.Intn(100)
+	if s.heldAOK && r.Chance(1, 3) {
+		x = 97 // render the held admin page soon, typically after one or two other operations
+	} else if s.heldPOK && r.Chance(1, 3) {
+		x = 98
+	} else if len(al) >= 3 && r.Chance(1, 12) {
+		x = 97
+	} else if len(pl) >= 3 && r.Chance(1, 20) {
+		x = 98
+	}
 	if len(pl) == 0 && r.Chance(3, 4) {
 		x = 0
 	} else if len(al) == 0 && r.Chance(3, 4) {
@@ -728,7 +917,22 @@ func gen(r *c.Rng, s *sys) Op {
 			cur = c.Pick(r, []string{"a", "a3", "a30", "zz", "A"})
 		}
 		return Op{K: "af", A: []string{cur}, N: c.Pick(r, limits)}
+	case x < 97:
+		return Op{K: "ap", N: c.Pick(r, limits)}
+	case x < 98:
+		if s.heldAOK {
+			return Op{K: "av"}
+		}
+		return Op{K: "ah", N: c.Pick(r, []int{1, 2, 2, 3})}
+	case x < 99:
+		if s.heldPOK {
+			return Op{K: "pv"}
+		}
+		return Op{K: "ph", N: c.Pick(r, []int{1, 2, 2, 3})}
 	default:
+		if s.heldAOK {
+			return Op{K: "ar", A: []string{pickAdm()}}
+		}
 		return Op{K: "ap", N: c.Pick(r, limits)}
 	}
 }
@@ -765,6 +969,12 @@ func corner() []*Case {
 			{K: "ap", N: 1}, {K: "af", A: []string{""}, N: 1}, {K: "ar", A: []string{""}}, {K: "ar", A: []string{"a0"}}}},
 		{Ops: []Op{ps("p0", "n0"), as("a0", "s0", "p0", "n0", false), {K: "au", A: []string{"a0"}, B: true},
 			{K: "ar", A: []string{"a0"}}, as("a1", "s0", "p0", "n0", true), {K: "ar", A: []string{"a1"}}}},
+		{Ops: []Op{ps("p0", "n0"), ps("p1", "n1"), as("a0", "s0", "p0", "n0", true), as("a1", "s1", "p0", "n0", false), as("a2", "s2", "p0", "n0", false),
+			as("a3", "s0", "p1", "n1", false), as("a4", "s1", "p1", "n1", false), {K: "ah", N: 2}, {K: "ar", A: []string{"a1"}}, {K: "av"},
+			{K: "ah", N: 2}, as("a1", "s1", "p0", "n0", false), {K: "av"}, {K: "ah", N: 3}, {K: "ar", A: []string{"a3"}}, {K: "av"}}},
+		{Ops: []Op{ps("p0", "n0"), ps("p1", "n1"), ps("p2", "n2"), ps("p3", "n3"), {K: "ph", N: 2}, {K: "pr", A: []string{"p1"}}, {K: "pv"},
+			{K: "ph", N: 1}, {K: "pu", A: []string{"p2", "n1", "tok-n1", "k0"}}, {K: "pv"},
+			{K: "pu", A: []string{"p0", "n0", "tok-n3", "k0"}}, {K: "pp", N: 1}}},
 		{Ops: []Op{ps("p0", "n0"), as("a0", "s0", "p0", "n0", true), as("a1", "s1", "p0", "n0", false),
 			as("a2", "s2", "p0", "n0", false), {K: "ar", A: []string{"a1"}}, as("a3", "s1", "p0", "n0", true),
 			{K: "ar", A: []string{"a0"}}, {K: "ar", A: []string{"a3"}}}},
